@@ -562,8 +562,50 @@ def r_key(prog, R):
             r.viol("keyfn@%s" % fn, g.name, g.loc(g.ln), "%s does not compute its key with ares_qcache_calc_key(<request>)" % fn)
 
 
+def _expiry_comparator(prog, r):
+    """the expiry index is ordered by a comparator that is a total order on expire_ts: decided by evaluating ares_qcache_entry_sort_cb for pairs around the
+    int / unsigned boundaries (a difference squeezed into an int flips its sign for lifetimes more than 2^31 s apart, which max_ttl = 0xFFFFFFFF permits)"""
+    import evalx
+    f = prog.func("ares_qcache_entry_sort_cb", required=False)
+    k = "expiry comparator orders every pair of expiry times (no truncated difference)"
+    if f is None:
+        r.broke("ares_qcache_entry_sort_cb not found")
+        return
+    names = [p_["n"] for p_ in f.params]
+    loc = {}
+    for b, i, el in f.elements():
+        if el["k"] == "decl":
+            for v in el["vars"]:
+                if v.get("init") is not None and strip(v["init"]).get("k") == "var" and strip(v["init"])["n"] in names:
+                    loc[strip(v["init"])["n"]] = v["n"]
+    if not r.require(len(names) == 2 and len(loc) == 2, "sort_cb: typed locals of the two arguments not found"):
+        return
+    a_, b_ = loc[names[0]] + "->expire_ts", loc[names[1]] + "->expire_ts"
+    vals = (0, 1, 5, 0x7FFFFFFF, 0x80000000, 3000000000, 0xFFFFFFFF, 0x100000005, 1 << 40)
+    bad = None
+    try:
+        for x in vals:
+            for y in vals:
+                env = {a_: x, b_: y}
+                res = evalx.run_cfg(f, env)
+                if res[0] != "ret":
+                    raise evalx.Unknown("no return reached")
+                v = evalx.ev(evalx._leafify(res[1].get("e")), env)
+                sg = (v > 0) - (v < 0)
+                if sg != (x > y) - (x < y) and bad is None:
+                    bad = (x, y, v)
+    except evalx.Unknown as ex:
+        r.broke("sort_cb not interpretable: %s" % ex)
+        return
+    if bad is None:
+        r.ok(k, f.loc(f.ln), note="%d pairs" % (len(vals) ** 2))
+    else:
+        r.viol(k, f.name, f.loc(f.ln), "expiry times %d and %d compare as %d: the later entry sorts in front, ares_qcache_expire() stops at it and the expired entries behind it are still replayed" % bad)
+
+
 def r_order(prog, R):
     r = R.rule("R-C08-ORDER", "expire before lookup, decrement before hand-out, fetch before allocating a query", floor=7, analysis="A-DOM")
+    _expiry_comparator(prog, r)
     f = prog.func("ares_qcache_fetch")
     mf = MustFacts(f)
     look = f.calls_to("ares_htable_strvp_get_direct")
